@@ -27,11 +27,15 @@ class FmtArgs(str):
 
 
 class _Break(Exception):
-    pass
+    def __init__(self, target=None, value=None):
+        Exception.__init__(self)
+        self.target, self.value = target, value
 
 
 class _Continue(Exception):
-    pass
+    def __init__(self, target=None):
+        Exception.__init__(self)
+        self.target = target
 
 
 class _Return(Exception):
@@ -251,9 +255,8 @@ class Interp:
             raise NoEval('arity of %s' % key)
         env = {}
         for p, a in zip(f['params'], argvals):
-            if isinstance(a, dict) and '__struct__' in a and not (p.get('ty') or '&').startswith('&') and self.facts is not None \
-                    and a['__struct__'] in self.copy_types:
-                a = deep_clone(a)        # a Copy value passed by value: the callee works on its own copy
+            if isinstance(a, dict) and '__struct__' in a and not (p.get('ty') or '&').startswith('&'):
+                a = deep_clone(a)        # passed by value (copy or move): the callee works on its own value
             if not self.bind(p, a, env):
                 raise NoEval('parameter pattern of %s' % key)
         self.depth += 1
@@ -368,6 +371,17 @@ class Interp:
         raise NoEval('pattern %s' % hir.pp_pat(p))
 
     # ------------------------------------------------------------ expressions
+    def val(self, e, env):
+        """evaluate in a value context: a struct read out of a place (local, field, element, *reference) is a copy or a move, never an alias"""
+        v = self.ev(e, env)
+        if isinstance(v, dict) and '__struct__' in v and e.get('k') != 'AddrOf' and not (e.get('ty') or '').startswith('&'):
+            e1 = e
+            while e1.get('k') == 'Block' and not e1['stmts'] and e1.get('expr') is not None:
+                e1 = e1['expr']
+            if e1.get('k') in ('Path', 'Field', 'Index') or (e1.get('k') == 'Unary' and e1.get('op') == 'Deref'):
+                return deep_clone(v)
+        return v
+
     def ev(self, e, env):
         self.tick()
         e0 = e
@@ -414,18 +428,24 @@ class Interp:
             p = r.get('path') or ''
             if p.endswith('::None') or p == 'None':
                 return NONE
+            m_ = re.match(r'^(?:std::|core::)?(?:primitive::)?([iu](?:8|16|32|64|128|size))::(MAX|MIN|BITS)$', p) or \
+                re.match(r'^(?:std|core)::([iu](?:8|16|32|64|128|size))::(MAX|MIN|BITS)$', p) or \
+                re.match(r'^(?:std|core)::num::<impl ([iu](?:8|16|32|64|128|size))>::(MAX|MIN|BITS)$', p)
+            if m_:
+                w_, sg_ = _INT_TY[m_.group(1)]
+                return w_ if m_.group(2) == 'BITS' else ((1 << (w_ - 1)) - 1 if sg_ else (1 << w_) - 1) if m_.group(2) == 'MAX' else (-(1 << (w_ - 1)) if sg_ else 0)
             if self.facts is not None and 'Const' in (r.get('dk') or '') and 'Ctor' not in (r.get('dk') or '') and p in self.facts.get('consts', {}):
                 return self.ev(self.facts['consts'][p]['hir'], {})
             if ('Fn' in (r.get('dk') or '')) and 'Ctor' not in (r.get('dk') or '') and self._inlinable(p):
                 return lambda *a, _p=p: self.local_call(_p, list(a))
             return ('const', p)
         if k == 'Tup':
-            return tuple(self.ev(x, env) for x in e['items'])
+            return tuple(self.val(x, env) for x in e['items'])
         if k == 'Array':
-            return [self.ev(x, env) for x in e['items']]
+            return [self.val(x, env) for x in e['items']]
         items = hir.vec_literal(e)
         if items is not None:
-            return [self.ev(x, env) for x in items]
+            return [self.val(x, env) for x in items]
         if k == 'Cast':
             v_ = self.ev(e['e'], env)
             v_ = v_.get() if isinstance(v_, Cell) else v_
@@ -551,7 +571,7 @@ class Interp:
             params, body, cenv = e['params'], e['body'], env
 
             def fn(*args):
-                e2 = dict(cenv)          # closures see the enclosing bindings (by reference semantics is not modelled: they must not assign to them)
+                e2 = cenv                # closures see (and may assign to) the enclosing bindings: binding ids are unique, so sharing is safe
                 if len(args) != len(params):
                     if len(params) == 1:
                         args = (tuple(args),)
@@ -592,9 +612,16 @@ class Interp:
         if k == 'Ret':
             raise _Return(self.ev(e['e'], env) if e.get('e') else None)
         if k == 'Break':
-            raise _Break()
+            raise _Break(e.get('target'), self.ev(e['e'], env) if e.get('e') is not None else None)
         if k == 'Continue':
-            raise _Continue()
+            raise _Continue(e.get('target'))
+        if k == 'Labeled':
+            try:
+                return self.block(hir.stmts_of(e['body']), env)
+            except _Break as b_:
+                if b_.target is not None and b_.target == e.get('id'):
+                    return b_.value
+                raise
         if k == 'Call':
             return self.call(e, env)
         if k == 'MethodCall':
@@ -621,7 +648,7 @@ class Interp:
                 d.update(deep_clone(b_))
                 d['__struct__'] = (e['ctor'].get('path') or '')
             for n, v in e['fields']:
-                d[n] = self.ev(v, env)
+                d[n] = self.val(v, env)
             return d
         raise NoEval('expression %s' % k)
 
@@ -662,7 +689,7 @@ class Interp:
             if isinstance(v_, str):
                 return str(v_)
             raise NoEval('format of %r' % (v_,))
-        if c.endswith(('Arguments::<\'a>::from_str', 'Arguments::<\'a>::new_const', 'Arguments::from_str', 'Arguments::new_const')) and e['args']:
+        if c.endswith(('Arguments::<\'a>::from_str', 'Arguments::<\'a>::new_const', 'Arguments::from_str', 'Arguments::new_const', 'from_str_nonconst')) and e['args']:
             v_ = self.ev(e['args'][0], env)
             if isinstance(v_, list) and len(v_) == 1:
                 v_ = v_[0]
@@ -675,7 +702,8 @@ class Interp:
         if (e.get('ty') or '').endswith('string::String') and not e['args'] and c.rsplit('::', 1)[-1] in ('new', 'default'):
             return ''
         if c.endswith('vec::from_elem') and len(e['args']) == 2:
-            return [self.ev(e['args'][0], env)] * self.ev(e['args'][1], env)
+            x_, n_ = self.val(e['args'][0], env), self.ev(e['args'][1], env)
+            return [deep_clone(x_) for _ in range(n_)]
         fnode = hir.strip(e['fun'])
         if fnode.get('k') == 'Path' and fnode['res'].get('k') == 'SelfCtor' and self.facts is not None and (e.get('ty') or '') in self.facts.get('adts', {}):
             d_ = {'__struct__': e['ty']}
@@ -696,8 +724,9 @@ class Interp:
             r_ = self.host_call(c, e, lambda: [self.ev(x, env) for x in e['args']])
             if r_ is not NotImplemented:
                 return r_
-        if c.endswith(('Vec::<T>::new', 'Vec::new', 'VecDeque::<T>::new')) or (c.endswith('::new') and ('Vec<' in (e.get('ty') or ''))):
-            return []
+        th_ = (e.get('ty') or '').replace('std::collections::', '').replace('std::vec::', '').replace('alloc::vec::', '').replace('rustc_hash::', '').strip()
+        if c.endswith(('Vec::<T>::new', 'Vec::new', 'VecDeque::<T>::new')) or (c.endswith('::new') and th_.startswith(('Vec<', 'VecDeque<'))):
+            return Deque() if th_.startswith('VecDeque<') else []
         if c.endswith('with_capacity') and 'Vec' in (e.get('ty') or '') + c:
             return []
         if c.endswith(('HashMap::<K, V, S>::default', 'Default>::default', 'Default::default')) or ('HashMap' in (e.get('ty') or '') and c.endswith(('::new', '::default'))):
@@ -706,6 +735,18 @@ class Interp:
                 return {}
             if 'Vec' in t:
                 return []
+        if c.endswith(('Default>::default', 'Default::default')) and not e['args']:
+            t0_ = (e.get('ty') or '').strip()
+            if int_ty(t0_) is not None:
+                return 0
+            if t0_ == 'bool':
+                return False
+            if t0_.endswith('string::String'):
+                return ''
+            if t0_.startswith(('std::option::Option<', 'Option<')):
+                return NONE
+            if t0_ == '()':
+                return ()
         if c.endswith(('Default>::default', 'Default::default')) and not e['args'] and self.facts is not None:
             t_ = (e.get('ty') or '').strip()
             k_ = '<%s as std::default::Default>::default' % t_
@@ -756,7 +797,7 @@ class Interp:
         args = e['args']
 
         def A(i=0):
-            return self.ev(args[i], env)
+            return self.val(args[i], env)
         if getattr(self, 'host_method', None) is not None:
             r_ = self.host_method(e.get('callee') or '', nm, recv, lambda: [self.ev(x, env) for x in args])
             if r_ is not NotImplemented:
@@ -1062,6 +1103,16 @@ class Interp:
                     b_ = A()
                     r_ = recv + b_ if nm == 'overflowing_add' else recv - b_
                     return (wrap_int(r_, ty_), not in_range(r_, ty_))
+            if nm == 'rem_euclid' and len(args) == 1:
+                b_ = A()
+                if b_ == 0:
+                    raise Panics('rem_euclid by zero')
+                return recv % abs(b_)
+            if nm == 'div_euclid' and len(args) == 1:
+                b_ = A()
+                if b_ == 0:
+                    raise Panics('div_euclid by zero')
+                return (recv - recv % abs(b_)) // b_
             if nm == 'is_negative' and not args:
                 return recv < 0
             if nm == 'is_positive' and not args:
@@ -1149,10 +1200,7 @@ class Interp:
         if k == 'Let':
             if s.get('init') is None:
                 return None
-            v = self.ev(s['init'], env)
-            if isinstance(v, dict) and '__struct__' in v and hir.strip(s['init']).get('k') in ('Path', 'Field', 'Index', 'Unary') and s['init'].get('k') != 'AddrOf' \
-                    and not (s['init'].get('ty') or '').startswith('&'):
-                v = deep_clone(v)        # a copy / move out of a place: the new binding does not alias the old one
+            v = self.val(s['init'], env)
             ok = self.bind(s['pat'], v, env)
             if not ok:
                 if s.get('els'):
@@ -1161,7 +1209,7 @@ class Interp:
                 raise NoEval('refutable let')
             return None
         if k == 'Assign':
-            self.place_set(s['l'], self.ev(s['r'], env), env)
+            self.place_set(s['l'], self.val(s['r'], env), env)
             return None
         if k == 'AssignOp':
             lt_ = (s['l'].get('ty') or '').strip()
@@ -1207,9 +1255,13 @@ class Interp:
                     raise NoEval('for pattern')
                 try:
                     self.block(hir.stmts_of(s['body']), env, scoped=True)
-                except _Continue:
+                except _Continue as c_:
+                    if c_.target is not None and s.get('id') is not None and c_.target != s['id']:
+                        raise
                     continue
-                except _Break:
+                except _Break as b_:
+                    if b_.target is not None and s.get('id') is not None and b_.target != s['id']:
+                        raise
                     break
             return None
         if k in ('While', 'Loop'):
@@ -1222,10 +1274,14 @@ class Interp:
                     break
                 try:
                     self.block(hir.stmts_of(s['body']), env, scoped=True)
-                except _Continue:
+                except _Continue as c_:
+                    if c_.target is not None and s.get('id') is not None and c_.target != s['id']:
+                        raise
                     continue
-                except _Break:
-                    break
+                except _Break as b_:
+                    if b_.target is not None and s.get('id') is not None and b_.target != s['id']:
+                        raise
+                    return b_.value
             return None
         if k == 'Item':
             return None
